@@ -117,6 +117,34 @@ def snapshot_sweep(c, quick):
     c.sample({"registry_spare_slices": [(r["path"], r["len"], r["cap"]) for r in spare[:4]]})
 
 
+def equiv_sweep(c, quick):
+    """result equivalence under history and concurrency: the same workload list (examples, synthetic invoices per regime,
+    per regime+addon, every ordered pair of addons on its home regimes, random combinations) calculated in a seeded order,
+    in the reverse order and on 16 goroutines, each in a FRESH process; a workload's result must be the same in all three."""
+    nrand = 40 if quick else 3000
+    outs = {}
+    for mode in ("fwd", "rev", "par"):
+        p = subprocess.run([os.path.join(BIN, "vharness"), "c15equiv", REPO, str(c.seed), str(nrand), mode], stdout=subprocess.PIPE,
+                           stderr=subprocess.PIPE, text=True, timeout=1800, env=GOENV)
+        if p.returncode != 0:
+            c.report("result-equivalence sweep failed (%s): %s" % (mode, p.stderr[-600:]), {"machinery": "c15equiv"}, no_input=True)
+            return
+        outs[mode] = dict(l.split("\t", 1) for l in p.stdout.splitlines() if "\t" in l)
+    names = sorted(outs["fwd"])
+    shown = 0
+    for n in names:
+        c.count("result-equivalence", 3, n)
+        r = {m: outs[m].get(n) for m in outs}
+        if len(set(r.values())) > 1:
+            shown += 1
+            if shown <= 3:
+                c.report("the calculated result of %s depends on what the process handled before or at the same time: %s" % (n, r),
+                         {"workload": n, "results": r, "clause": "concurrent and repeated use gives the same result as a fresh sequential run",
+                          "rerun": "for m in fwd rev par; do bin/vharness c15equiv %s %d %d $m | grep -F '%s'; done" % (REPO, c.seed, nrand, n)})
+    c.cov["result_equivalence"] = {"workloads": len(names), "orders": ["seeded shuffle", "its reverse", "16 goroutines"], "differing": shown,
+                                   "panics": sum(1 for v in outs["fwd"].values() if v == "panic")}
+
+
 def wire_list(xs, raw=False):
     if not xs:
         return "( )"
@@ -496,6 +524,8 @@ def _bulk_streams(c, quick, srv, keyfile, pubfile, pubkey, tmp):
     cases = []
     for k in range(nstreams):
         n = rng.randint(5, 60) if quick or rng.random() < 0.9 else rng.randint(100, 400)
+        if k < 2:
+            n = 1600 if k == 0 else 700     # long streams (several MiB in total): limits that accumulate over a stream show only here
         reqs, tail, pid = gen_stream(rng, docs, signed, pubkey, n, None if srv else json.load(open(keyfile)))
         cases.append((reqs, tail, pid))
     lines, metas = [], []
@@ -549,7 +579,7 @@ def _bulk_streams(c, quick, srv, keyfile, pubfile, pubkey, tmp):
     c.cov["bulk"] = {"streams": len(metas), "requests": sum(len(m[0]) for m in metas), "streams_with_reordered_replies": reordered,
                      "streams_ending_in_decode_error": sum(1 for m in metas if m[2] is not None), "rejected": rejected,
                      "standalone_cli_invocations": sa.n, "transport": "HTTP POST /bulk on 127.0.0.1" if srv else "gobl bulk (stdin)",
-                     "wall_s": round(time.time() - t0, 1)}
+                     "largest_stream_bytes": max([len(stream_text(m[0], m[1])) for m in metas] or [0]), "wall_s": round(time.time() - t0, 1)}
     if metas:
         c.sample({"bulk_stream_requests": len(metas[0][0]), "observed_seq_order": [o[1] for o in metas[0][4]][:20]})
     if reordered == 0 and metas:
@@ -667,6 +697,7 @@ def run(c):
     except Exception as e:  # noqa
         c.report("vm_compute cross-check failed: %r" % e, {"machinery": repr(e)}, no_input=True)
     snapshot_sweep(c, quick)
+    equiv_sweep(c, quick)
     bulk_streams(c, quick)
     race_stress(c, quick)
     c.cov["rule"] = ("snapshot: one workload = one document (every example output + a synthetic invoice per regime x addon and seeded "
